@@ -319,6 +319,8 @@ class JsonSchemaGenerator:
             value = self.generate_for_field(field, options=options)
             if value is None:
                 continue
+            # the key of parser.fields is lower-cased for case-insensitive fields, the published name is field.name
+            name = field.name
             properties[name] = value
             if field.dependencies:
                 dependent_required[name] = field.dependencies
